@@ -15,6 +15,7 @@ import SwimVerif.Proofs.FormReset
 import SwimVerif.Model.FormIO
 import SwimVerif.Proofs.MsgPackBytes
 import SwimVerif.Proofs.MsgPackNorm
+import SwimVerif.Proofs.MsgPackMono
 
 set_option linter.unusedVariables false
 namespace SwimVerif.Form
@@ -366,9 +367,20 @@ theorem C16_msgpack_value_roundtrip_eq (v : Value) (hok : mpOk v = true) (rest :
   obtain ⟨bs, h1, h2⟩ := mp_roundtrip v hok rest
   exact ⟨bs, mpNorm v, h1, h2, veq_norm v⟩
 
-/-- Open: a strict prefix of a written value is an error, never a different value. -/
-def C16_msgpack_truncated_rejected_open : Prop :=
-  ∀ v, mpOk v = true → ∀ bs, mpWrite v = some bs → ∀ p, p.length < bs.length → bs.take p.length = p → mpRead p = none
+/-- A strict prefix of a written value is an error, never a different value — for ALL values of the fragment (nested
+records included).  Token level: every integer width, str / bin / ext header and body, sign and type bytes; structure:
+mutual induction over `Value`/`Attrs`/`Items`; the fuel is handled by monotonicity of the reader in its fuel. -/
+theorem C16_msgpack_truncated_rejected :
+    ∀ v, mpOk v = true → ∀ bs, mpWrite v = some bs → ∀ p, p.length < bs.length → bs.take p.length = p → mpRead p = none :=
+  mp_truncated
+
+/-- The same for the recursive reader with ANY fuel. -/
+theorem C16_msgpack_truncated_rejected_any_fuel (v : Value) (hok : mpOk v = true) (p q : List Nat) (hq : q ≠ [])
+    (hpq : p ++ q = wV v) (f : Nat) : rdV f p = none := rdV_prefix_none v hok p q hq hpq f
+
+/-- More fuel never changes a successful read of the model (so the fuel is a termination device only). -/
+theorem C16_msgpack_reader_fuel_monotone {f : Nat} {x : List Nat} {y : Value × List Nat} (h : rdV f x = some y)
+    (k : Nat) : rdV (f + k) x = some y := rdV_mono h k
 
 /-- Non-vacuity: a nested record with attributes, a map body inside an array body, a slot with a non-text key. -/
 def exRec : Value :=
@@ -394,5 +406,18 @@ example : mpRead (218 :: 1 :: 44 :: (List.replicate 300 97 ++ [5])) = some (.tex
 /-- every strict prefix of the written record is rejected -/
 example : ∀ k, k < 28 → mpRead (([130, 161, 97, 205, 1, 44, 162, 195, 169, 128, 129, 1, 195, 147, 209, 255, 127, 146, 161,
     107, 128, 145, 192, 196, 3, 1, 2, 255] : List Nat).take k) = none := by decide
+
+/-- non-vacuity of the new theorems on `exRec` and on the densely nested record -/
+example : ∃ bs, mpWrite exRec = some bs ∧ mpRead (bs ++ [7, 7]) = some (mpNorm exRec, [7, 7]) :=
+  C16_msgpack_value_roundtrip exRec (by decide) [7, 7]
+example : mpRead [130, 161, 97, 205, 1, 44, 162, 195] = none :=
+  C16_msgpack_truncated_rejected exRec (by decide) [130, 161, 97, 205, 1, 44, 162, 195, 169, 128, 129, 1, 195, 147, 209, 255,
+    127, 146, 161, 107, 128, 145, 192, 196, 3, 1, 2, 255] (by decide) [130, 161, 97, 205, 1, 44, 162, 195] (by decide)
+    (by decide)
+example : mpNorm exRec ≠ exRec ∧ SwimVerif.ReconEq.veq (mpNorm exRec) exRec = true :=
+  ⟨by decide, C16_msgpack_norm_equiv exRec⟩
+example : TokRT (wInt (-9223372036854775808)) (mkInt (-9223372036854775808)) :=
+  C16_msgpack_int_token _ (by decide) (by decide)
+example : utf8Dec (utf8Enc ['a', 'é', '€', '😀']) = some ['a', 'é', '€', '😀'] := C16_msgpack_utf8_roundtrip _
 
 end SwimVerif.MsgPack
